@@ -120,12 +120,16 @@ UDv == UNCHANGED dv
 
 \* derivation queue; a frame remembers the index of its record (0 = none).  The nodes matched by implicit skips are
 \* part of the typed tree (Skipped.skipped), so they are recorded too (below the iter / elem record that owns them).
-DvOn == TRUE
+DvOn == RecDv
 DvIdx == IF DvOn THEN Len(dv) + 1 ELSE 0
 DvApp(q, ev) == IF DvOn THEN Append(q, ev @@ [d |-> cdep]) ELSE q
 LeafKind == IF cur.t = "call" THEN cur.n ELSE cur.t
 UTrk == UNCHANGED <<trk, skp, log>>
 UEv == UNCHANGED evs
+EvApp(q, x) == IF RecEv THEN Append(q, x) ELSE q
+EvCat(q, xs) == IF RecEv THEN q \o xs ELSE q
+LogApp(q, x) == IF RecLog THEN Append(q, x) ELSE q
+CallApp(q, x) == IF RecCalls THEN Append(q, x) ELSE q
 TB(s) == <<"t+", s>>
 TE(b, s) == <<"t-", b, s>>
 Both == HasWS /\ HasCM
@@ -133,7 +137,7 @@ Both == HasWS /\ HasCM
 Leaf(b, p) == /\ pc' = "ret" /\ ok' = b /\ pos' = p
               /\ dv' = (IF b THEN DvApp(dv, [k |-> "leaf", r |-> LeafKind, s |-> pos, e |-> p]) ELSE dv)
               /\ UNCHANGED <<cur, K, stk>> /\ UEnv /\ UTree /\ UTrk /\ UEv
-LeafE(b, p, ev) == /\ pc' = "ret" /\ ok' = b /\ pos' = p /\ evs' = evs \o ev
+LeafE(b, p, ev) == /\ pc' = "ret" /\ ok' = b /\ pos' = p /\ evs' = EvCat(evs, ev)
               /\ dv' = (IF b THEN DvApp(dv, [k |-> "leaf", r |-> LeafKind, s |-> pos, e |-> p]) ELSE dv)
               /\ UNCHANGED <<cur, K, stk>> /\ UEnv /\ UTree /\ UTrk
 LeafS(b, p, s) == /\ pc' = "ret" /\ ok' = b /\ pos' = p /\ stk' = s
@@ -252,19 +256,19 @@ SeqFail == Returning("seq") /\ ~ok /\ PopRet(FALSE) /\ dv' = Cut(dv, Top.vi) /\ 
 AltEnter == Evaluating("alt") /\
   LET dv2 == DvApp(dv, [k |-> "alt", s |-> pos, e |-> pos, i |-> 0, n |-> Len(cur.xs)]) IN
   /\ Enter([f |-> "alt", xs |-> cur.xs, i |-> 1, vi |-> DvIdx] @@ SavedV(Len(dv2)), cur.xs[1]) /\ dv' = dv2
-  /\ evs' = Append(evs, TB(stk))
+  /\ evs' = EvApp(evs, TB(stk))
   /\ UNCHANGED <<ok, pos, stk>> /\ UEnv /\ UTree /\ UTrk
 
 AltOk == Returning("alt") /\ ok /\ PopRet(TRUE) /\ dv' = Patch(Patch(dv, Top.vi, "i", Top.i - 1), Top.vi, "e", pos)
-         /\ evs' = Append(evs, TE(TRUE, stk))
+         /\ evs' = EvApp(evs, TE(TRUE, stk))
          /\ UNCHANGED <<cur, pos, stk>> /\ UEnv /\ UTree /\ UTrk
 
 AltFail == Returning("alt") /\ ~ok /\
   (IF Top.i < Len(Top.xs)
    THEN /\ Restore(Top) /\ pc' = "eval" /\ cur' = Top.xs[Top.i + 1] /\ K' = <<[Top EXCEPT !.i = @ + 1]>> \o Below /\ UNCHANGED ok
-        /\ evs' = evs \o <<TE(FALSE, Top.s0), TB(Top.s0)>>
+        /\ evs' = EvCat(evs, <<TE(FALSE, Top.s0), TB(Top.s0)>>)
    ELSE /\ Restore([Top EXCEPT !.v0 = IF Top.vi > 0 THEN Top.vi - 1 ELSE Top.v0]) /\ PopRet(FALSE) /\ UNCHANGED cur
-        /\ evs' = Append(evs, TE(FALSE, Top.s0)))
+        /\ evs' = EvApp(evs, TE(FALSE, Top.s0)))
   /\ UNCHANGED <<at, look, dep, cdep>> /\ UEnv /\ UTrk
 
 --------------------------------------------------------------------------
@@ -273,12 +277,12 @@ AltFail == Returning("alt") /\ ~ok /\
 OptEnter == Evaluating("opt") /\
   LET dv2 == DvApp(dv, [k |-> "opt", s |-> pos, e |-> pos, i |-> 0]) IN
   /\ Enter([f |-> "opt", vi |-> DvIdx] @@ SavedV(Len(dv2)), cur.e) /\ dv' = dv2
-  /\ evs' = Append(evs, TB(stk))
+  /\ evs' = EvApp(evs, TB(stk))
   /\ UNCHANGED <<ok, pos, stk>> /\ UEnv /\ UTree /\ UTrk
 OptOk == Returning("opt") /\ ok /\ PopRet(TRUE) /\ dv' = Patch(Patch(dv, Top.vi, "i", 1), Top.vi, "e", pos)
-         /\ evs' = Append(evs, TE(TRUE, stk))
+         /\ evs' = EvApp(evs, TE(TRUE, stk))
          /\ UNCHANGED <<cur, pos, stk>> /\ UEnv /\ UTree /\ UTrk
-OptFail == Returning("opt") /\ ~ok /\ Restore(Top) /\ PopRet(TRUE) /\ evs' = Append(evs, TE(FALSE, Top.s0))
+OptFail == Returning("opt") /\ ~ok /\ Restore(Top) /\ PopRet(TRUE) /\ evs' = EvApp(evs, TE(FALSE, Top.s0))
            /\ UNCHANGED <<cur, at, look, dep, cdep>> /\ UEnv /\ UTrk
 
 \* RestoreOnErr of pest's optimizer is transparent (every attempt restores anyway)
@@ -296,9 +300,9 @@ RepFrame(e, i, vi, q) == [f |-> "rep", e |-> e, i |-> i, ph |-> "elem", vi |-> v
 RepBegin(e, i, vi, q, below, ev) ==
   IF e.max >= 0 /\ i >= e.max
   THEN /\ pc' = "ret" /\ ok' = (i >= e.min) /\ K' = below /\ dv' = (IF i >= e.min THEN q ELSE Cut(q, vi)) /\ UNCHANGED cur
-       /\ evs' = evs \o ev
+       /\ evs' = EvCat(evs, ev)
   ELSE /\ dv' = DvApp(q, [k |-> "iter", i |-> i, s |-> pos, m |-> pos, e |-> pos])
-       /\ evs' = evs \o ev \o <<TB(stk)>>
+       /\ evs' = EvCat(evs, ev \o <<TB(stk)>>)
        /\ IF i = 0
           THEN /\ pc' = "eval" /\ cur' = e.e /\ K' = <<RepFrame(e, i, vi, q)>> \o below /\ UNCHANGED ok
           ELSE /\ pc' = "eval" /\ cur' = SkipExpr /\ K' = <<[RepFrame(e, i, vi, q) EXCEPT !.ph = "skip"]>> \o below /\ UNCHANGED ok
@@ -325,7 +329,7 @@ RepDiverge == Returning("rep") /\ Top.ph = "elem" /\ ok /\ Top.e.max < 0 /\ NoPr
 \* the failed unit (skip included) is given back; fewer than MIN iterations: the repetition fails
 RepIterFail == Returning("rep") /\ Top.ph = "elem" /\ ~ok /\
   Restore(IF Top.i >= Top.e.min \/ Top.vi = 0 THEN Top ELSE [Top EXCEPT !.v0 = Top.vi - 1]) /\
-  PopRet(Top.i >= Top.e.min) /\ evs' = Append(evs, TE(FALSE, Top.s0)) /\ UNCHANGED <<cur, at, look, dep, cdep>> /\ UEnv /\ UTrk
+  PopRet(Top.i >= Top.e.min) /\ evs' = EvApp(evs, TE(FALSE, Top.s0)) /\ UNCHANGED <<cur, at, look, dep, cdep>> /\ UEnv /\ UTrk
 
 --------------------------------------------------------------------------
 (* Predicates: cursor and stack always restored, no tokens; the tracker polarity is SET *)
@@ -334,7 +338,7 @@ PredEnter == (Evaluating("pos") \/ Evaluating("neg")) /\
   /\ Enter([f |-> "pred", neg |-> cur.t = "neg", tp |-> trk.positive] @@ Saved, cur.e)
   /\ look' = look + 1
   /\ trk' = [trk EXCEPT !.positive = (cur.t = "pos")]
-  /\ evs' = Append(evs, <<"p+", cur.t = "neg", stk>>)
+  /\ evs' = EvApp(evs, <<"p+", cur.t = "neg", stk>>)
   /\ UNCHANGED <<ok, pos, stk, at, dep, toks, calls, cdep, skp, log>> /\ UEnv /\ UDv
 
 PredExit == Returning("pred") /\
@@ -344,7 +348,7 @@ PredExit == Returning("pred") /\
   /\ look' = look - 1
   /\ trk' = [trk EXCEPT !.positive = Top.tp]
   /\ pc' = "ret" /\ ok' = (IF Top.neg THEN ~ok ELSE ok) /\ K' = Below
-  /\ evs' = Append(evs, <<"p-", ok, Top.s0>>)
+  /\ evs' = EvApp(evs, <<"p-", ok, Top.s0>>)
   /\ UNCHANGED <<cur, at, dep, cdep, skp, log>> /\ UEnv
 
 --------------------------------------------------------------------------
@@ -366,10 +370,10 @@ RuleEnter == pc = "eval" /\ cur.t = "call" /\ HasRule(cur.n) /\
      /\ toks' = (IF emit THEN Append(toks, Tok(cur.n, pos, pos, dep)) ELSE toks)
      /\ dep' = (IF emit THEN dep + 1 ELSE dep)
      /\ calls' = (IF inskip THEN calls
-                  ELSE Append(calls, [r |-> cur.n, s |-> pos, e |-> pos, d |-> cdep, sil |-> rl.ty = "silent"]))
+                  ELSE CallApp(calls, [r |-> cur.n, s |-> pos, e |-> pos, d |-> cdep, sil |-> rl.ty = "silent"]))
      /\ cdep' = (IF inskip THEN cdep ELSE cdep + 1)
      /\ trk' = (IF rec /\ Tracked THEN TrkPush(trk, cur.n, pos) ELSE trk)
-     /\ evs' = (IF rec THEN Append(evs, <<"r+", cur.n, pos>>) ELSE evs)
+     /\ evs' = (IF rec THEN EvApp(evs, <<"r+", cur.n, pos>>) ELSE evs)
      /\ UNCHANGED <<ok, pos, stk, look, skp, log>> /\ UEnv
 
 RuleExit == Returning("rule") /\
@@ -377,11 +381,12 @@ RuleExit == Returning("rule") /\
   /\ toks' = (IF ~ok THEN SubSeq(toks, 1, Top.ti - 1)
               ELSE IF Top.emit THEN [toks EXCEPT ![Top.ti].e = pos] ELSE toks)
   /\ calls' = (IF Top.nocall THEN calls
-               ELSE IF ~ok THEN SubSeq(calls, 1, Top.ci - 1) ELSE [calls EXCEPT ![Top.ci].e = pos])
+               ELSE IF ~ok THEN SubSeq(calls, 1, Top.ci - 1)
+               ELSE IF RecCalls THEN [calls EXCEPT ![Top.ci].e = pos] ELSE calls)
   /\ dv' = (IF ~ok THEN Cut(dv, Top.vi) ELSE Patch(dv, Top.vi, "e", pos))
   /\ trk' = (IF Top.rec /\ Tracked THEN TrkPop(trk, Top.n, Top.p0, ok) ELSE trk)
-  /\ log' = (IF Top.rec THEN Append(log, [r |-> Top.n, at |-> Top.p0, ok |-> ok]) ELSE log)
-  /\ evs' = (IF Top.rec THEN Append(evs, <<"r-", Top.n, Top.p0, ok>>) ELSE evs)
+  /\ log' = (IF Top.rec THEN LogApp(log, [r |-> Top.n, at |-> Top.p0, ok |-> ok]) ELSE log)
+  /\ evs' = (IF Top.rec THEN EvApp(evs, <<"r-", Top.n, Top.p0, ok>>) ELSE evs)
   /\ UNCHANGED <<cur, pos, stk, look, skp>> /\ UEnv
 
 \* the built-in EOI is generated through rule_eoi!: a (childless) rule for the tracker and a token
@@ -390,11 +395,11 @@ EoiRule == CallOf("EOI") /\
       emit == EmitsEoi(at, look > 0) IN
   /\ pc' = "ret" /\ ok' = b
   /\ toks' = (IF b /\ emit THEN Append(toks, Tok("EOI", pos, pos, dep)) ELSE toks)
-  /\ calls' = (IF b /\ skp = 0 THEN Append(calls, [r |-> "EOI", s |-> pos, e |-> pos, d |-> cdep, sil |-> FALSE]) ELSE calls)
+  /\ calls' = (IF b /\ skp = 0 THEN CallApp(calls, [r |-> "EOI", s |-> pos, e |-> pos, d |-> cdep, sil |-> FALSE]) ELSE calls)
   /\ trk' = (IF Tracked THEN TrkPop(TrkPush(trk, "EOI", pos), "EOI", pos, b) ELSE trk)
-  /\ log' = Append(log, [r |-> "EOI", at |-> pos, ok |-> b])
+  /\ log' = LogApp(log, [r |-> "EOI", at |-> pos, ok |-> b])
   /\ dv' = (IF b THEN DvApp(dv, [k |-> "leaf", r |-> "EOI", s |-> pos, e |-> pos]) ELSE dv)
-  /\ evs' = evs \o <<<<"r+", "EOI", pos>>, <<"r-", "EOI", pos, b>>>>
+  /\ evs' = EvCat(evs, <<<<"r+", "EOI", pos>>, <<"r-", "EOI", pos, b>>>>)
   /\ UNCHANGED <<cur, pos, stk, K, at, look, dep, cdep, skp>> /\ UEnv
 
 --------------------------------------------------------------------------
@@ -405,7 +410,7 @@ PushEnter == Evaluating("push") /\ Enter([f |-> "push", p0 |-> pos, vi |-> DvIdx
              /\ UNCHANGED <<ok, pos, stk>> /\ UEnv /\ UTree /\ UTrk /\ UEv
 PushExit == Returning("push") /\ PopRet(ok) /\ stk' = (IF ok THEN Append(stk, <<Top.p0, pos>>) ELSE stk)
             /\ dv' = (IF ok THEN Patch(dv, Top.vi, "e", pos) ELSE Cut(dv, Top.vi))
-            /\ evs' = (IF ok THEN Append(evs, <<"st", Append(stk, <<Top.p0, pos>>)>>) ELSE evs)
+            /\ evs' = (IF ok THEN EvApp(evs, <<"st", Append(stk, <<Top.p0, pos>>)>>) ELSE evs)
             /\ UNCHANGED <<cur, pos>> /\ UEnv /\ UTree /\ UTrk
 
 --------------------------------------------------------------------------
@@ -424,16 +429,16 @@ SkipTry(below) ==
   /\ K' = <<[f |-> "skip", which |-> first] @@ Saved>> \o below
 
 SkipBegin == Evaluating("skip") /\ at = "N" /\ (HasWS \/ HasCM) /\
-  SkipTry(K) /\ skp' = skp + 1 /\ evs' = evs \o SkipOpen /\ UNCHANGED <<ok, pos, stk, trk, log>> /\ UEnv /\ UTree /\ UDv
+  SkipTry(K) /\ skp' = skp + 1 /\ evs' = EvCat(evs, SkipOpen) /\ UNCHANGED <<ok, pos, stk, trk, log>> /\ UEnv /\ UTree /\ UDv
 
 \* WHITESPACE failed: restore, try COMMENT
 SkipWSFail == Returning("skip") /\ ~ok /\ Top.which = "WHITESPACE" /\ HasCM /\ Restore(Top) /\
   /\ pc' = "eval" /\ cur' = [t |-> "call", n |-> "COMMENT"] /\ K' = <<[Top EXCEPT !.which = "COMMENT"]>> \o Below
-  /\ evs' = evs \o <<TE(FALSE, Top.s0), TB(Top.s0)>>
+  /\ evs' = EvCat(evs, <<TE(FALSE, Top.s0), TB(Top.s0)>>)
   /\ UNCHANGED <<ok, at, look, dep, cdep>> /\ UEnv /\ UTrk
 
 SkipIterOk == Returning("skip") /\ ok /\ ~NoProgress /\
-  SkipTry(Below) /\ evs' = evs \o (IF Both THEN <<TE(TRUE, stk), TE(TRUE, stk)>> ELSE <<TE(TRUE, stk)>>) \o SkipOpen
+  SkipTry(Below) /\ evs' = EvCat(evs, (IF Both THEN <<TE(TRUE, stk), TE(TRUE, stk)>> ELSE <<TE(TRUE, stk)>>) \o SkipOpen)
   /\ UNCHANGED <<ok, pos, stk>> /\ UEnv /\ UTree /\ UTrk /\ UDv
 
 SkipDiverge == Returning("skip") /\ ok /\ NoProgress /\
@@ -443,7 +448,7 @@ SkipDiverge == Returning("skip") /\ ok /\ NoProgress /\
 \* Tokens of the skipped rules stay (they appear before the following element);
 \* inside a predicate the enclosing PredExit drops them.
 SkipEnd == Returning("skip") /\ ~ok /\ (Top.which = "COMMENT" \/ ~HasCM) /\ Restore(Top) /\
-  PopRet(TRUE) /\ skp' = skp - 1 /\ evs' = evs \o (IF Both THEN <<TE(FALSE, Top.s0), TE(FALSE, Top.s0)>> ELSE <<TE(FALSE, Top.s0)>>)
+  PopRet(TRUE) /\ skp' = skp - 1 /\ evs' = EvCat(evs, (IF Both THEN <<TE(FALSE, Top.s0), TE(FALSE, Top.s0)>> ELSE <<TE(FALSE, Top.s0)>>))
   /\ UNCHANGED <<cur, at, look, dep, cdep, trk, log>> /\ UEnv
 
 --------------------------------------------------------------------------
@@ -468,7 +473,7 @@ Finish == pc = "eoi" /\
   LET b == pos = Hi
       t2 == TrkPop(TrkPush(trk, "EOI", pos), "EOI", pos, b) IN
   /\ pc' = "done" /\ ok' = b /\ trk' = t2
-  /\ log' = Append(log, [r |-> "EOI", at |-> pos, ok |-> b])
+  /\ log' = LogApp(log, [r |-> "EOI", at |-> pos, ok |-> b])
   /\ fin' = fin @@ [fullok |-> b, fullend |-> Off(pos), fulltrk |-> Report(t2)]
   /\ UNCHANGED <<cfg, cur, pos, stk, K, skp>> /\ UTree /\ UDv /\ UEv
 
